@@ -1,7 +1,958 @@
 package main
 
-// Replay of solver counterexamples against the real code (go test -overlay).
+// Replay of solver counterexamples against the real code.
+//
+// For a failed obligation whose query is satisfiable, the entry state of the
+// verified function is read out of the solver's model (interactive session,
+// get-value), turned into a Go test that builds that state, calls the real
+// function and checks the violated condition, and the test is run inside the
+// real package with `go test -tags verif -overlay` (nothing is written under
+// the repository).  Supported shapes: builtins of package postscript
+// (func(*Interpreter) error) and functions whose parameters are scalars,
+// strings or byte slices.
+
+import (
+	"bufio"
+	"bytes"
+	"context"
+	"encoding/json"
+	"fmt"
+	"go/ast"
+	"go/printer"
+	"go/token"
+	"go/types"
+	"io"
+	"os"
+	"os/exec"
+	"path/filepath"
+	"strconv"
+	"strings"
+	"time"
+
+	"golang.org/x/tools/go/ssa"
+)
+
+// ---------------------------------------------------------------------
+// s-expressions
+
+type sexp struct {
+	atom string
+	list []*sexp
+}
+
+func (s *sexp) String() string {
+	if s == nil {
+		return ""
+	}
+	if s.list == nil {
+		return s.atom
+	}
+	var parts []string
+	for _, e := range s.list {
+		parts = append(parts, e.String())
+	}
+	return "(" + strings.Join(parts, " ") + ")"
+}
+
+func parseSexp(s string) (*sexp, string) {
+	s = strings.TrimLeft(s, " \t\r\n")
+	if s == "" {
+		return nil, ""
+	}
+	if s[0] == '(' {
+		s = s[1:]
+		node := &sexp{list: []*sexp{}}
+		for {
+			s = strings.TrimLeft(s, " \t\r\n")
+			if s == "" {
+				return node, ""
+			}
+			if s[0] == ')' {
+				return node, s[1:]
+			}
+			var e *sexp
+			e, s = parseSexp(s)
+			if e == nil {
+				return node, s
+			}
+			node.list = append(node.list, e)
+		}
+	}
+	if s[0] == '"' {
+		j := strings.Index(s[1:], "\"")
+		if j < 0 {
+			return &sexp{atom: s}, ""
+		}
+		return &sexp{atom: s[:j+2]}, s[j+2:]
+	}
+	j := strings.IndexAny(s, " \t\r\n()")
+	if j < 0 {
+		return &sexp{atom: s}, ""
+	}
+	return &sexp{atom: s[:j]}, s[j:]
+}
+
+// ---------------------------------------------------------------------
+// interactive solver session
+
+type session struct {
+	cmd *exec.Cmd
+	in  io.WriteCloser
+	out *bufio.Reader
+}
+
+// startSession looks for a (small) model: first of the full query restricted by
+// the size hints, then of the relaxed query with and without the hints.  Extra
+// restrictions are harmless: a candidate only counts when it replays.
+func startSession(query string, backend string, hints []string, altQuery string) (*session, error) {
+	withHints := func(q string) string {
+		if len(hints) == 0 {
+			return q
+		}
+		i := strings.LastIndex(q, "(check-sat)")
+		if i < 0 {
+			return q
+		}
+		var b strings.Builder
+		b.WriteString(q[:i])
+		for _, h := range hints {
+			b.WriteString("(assert " + h + ")\n")
+		}
+		b.WriteString(q[i:])
+		return b.String()
+	}
+	var lastErr error
+	cands := []string{withHints(query), withHints(relaxedQuery(query)), relaxedQuery(query)}
+	if altQuery != "" {
+		cands = []string{withHints(query), withHints(altQuery), altQuery, withHints(relaxedQuery(query))}
+	}
+	for qi, q := range cands {
+		if d := os.Getenv("GOVC_DUMP_CAND"); d != "" {
+			os.WriteFile(filepath.Join(d, fmt.Sprintf("cand%d.smt2", qi)), []byte(q), 0o644)
+		}
+		s, err := startSession1(q, backend)
+		if err == nil {
+			return s, nil
+		}
+		lastErr = err
+		backend = "z3-new"
+	}
+	return nil, lastErr
+}
+
+func startSession1(query string, backend string) (*session, error) {
+	args := []string{"-in", "-T:12"}
+	if strings.Contains(backend, "seed=7") {
+		args = append(args, "smt.random_seed=7")
+	}
+	if strings.Contains(backend, "seed=1234") {
+		args = append(args, "smt.random_seed=1234")
+	}
+	if strings.Contains(backend, "seed=42") {
+		args = append(args, "smt.random_seed=42", "smt.auto_config=false")
+	}
+	bin := "z3-new"
+	if strings.HasPrefix(backend, "z3-4.8.12") {
+		bin = "z3"
+		if strings.Contains(backend, "seed=5") {
+			args = append(args, "smt.random_seed=5")
+		}
+	}
+	ctx, cancel := context.WithTimeout(context.Background(), 60*time.Second)
+	_ = cancel
+	cmd := exec.CommandContext(ctx, bin, args...)
+	in, err := cmd.StdinPipe()
+	if err != nil {
+		return nil, err
+	}
+	outp, err := cmd.StdoutPipe()
+	if err != nil {
+		return nil, err
+	}
+	cmd.Stderr = nil
+	if err := cmd.Start(); err != nil {
+		return nil, err
+	}
+	s := &session{cmd: cmd, in: in, out: bufio.NewReaderSize(outp, 1<<20)}
+	io.WriteString(in, "(set-option :produce-models true)\n")
+	io.WriteString(in, query)
+	ans, err := s.readAnswer()
+	if err != nil {
+		s.close()
+		return nil, err
+	}
+	if strings.TrimSpace(ans) != "sat" {
+		s.close()
+		return nil, fmt.Errorf("solver session answered %q", strings.TrimSpace(ans))
+	}
+	return s, nil
+}
+
+func (s *session) close() {
+	s.in.Close()
+	s.cmd.Process.Kill()
+	s.cmd.Wait()
+}
+
+// readAnswer reads one atom line or one balanced s-expression.
+func (s *session) readAnswer() (string, error) {
+	var b strings.Builder
+	depth := 0
+	started := false
+	for {
+		line, err := s.out.ReadString('\n')
+		if strings.HasPrefix(line, "WARNING") {
+			continue
+		}
+		b.WriteString(line)
+		for _, ch := range line {
+			if ch == '(' {
+				depth++
+				started = true
+			} else if ch == ')' {
+				depth--
+			}
+		}
+		if strings.TrimSpace(line) != "" && (!started || depth <= 0) {
+			return b.String(), nil
+		}
+		if err != nil {
+			return b.String(), err
+		}
+	}
+}
+
+// value asks for the model value of one term.
+func (s *session) value(term string) (*sexp, error) {
+	io.WriteString(s.in, "(get-value ("+term+"))\n")
+	ans, err := s.readAnswer()
+	if err != nil && ans == "" {
+		return nil, err
+	}
+	e, _ := parseSexp(ans)
+	if e == nil || len(e.list) != 1 || len(e.list[0].list) != 2 {
+		return nil, fmt.Errorf("unexpected get-value answer: %s", truncate(ans, 200))
+	}
+	return e.list[0].list[1], nil
+}
+
+func sexpInt(e *sexp) (int64, bool) {
+	if e == nil {
+		return 0, false
+	}
+	if e.list == nil {
+		v, err := strconv.ParseInt(e.atom, 10, 64)
+		if err != nil {
+			// 9223372036854775808 does not fit: treat as failure
+			return 0, false
+		}
+		return v, true
+	}
+	if len(e.list) == 2 && e.list[0].atom == "-" {
+		if e.list[1].list == nil {
+			if e.list[1].atom == "9223372036854775808" {
+				return -9223372036854775808, true
+			}
+		}
+		v, ok := sexpInt(e.list[1])
+		return -v, ok
+	}
+	return 0, false
+}
+
+// sexpRealGo renders a model real as a Go float64 expression.
+func sexpRealGo(e *sexp) (string, bool) {
+	if e == nil {
+		return "", false
+	}
+	if e.list == nil {
+		if _, err := strconv.ParseFloat(e.atom, 64); err == nil {
+			return "float64(" + e.atom + ")", true
+		}
+		return "", false
+	}
+	if len(e.list) == 2 && e.list[0].atom == "-" {
+		v, ok := sexpRealGo(e.list[1])
+		return "-(" + v + ")", ok
+	}
+	if len(e.list) == 3 && e.list[0].atom == "/" {
+		a, ok1 := sexpRealGo(e.list[1])
+		b, ok2 := sexpRealGo(e.list[2])
+		return "(" + a + ")/(" + b + ")", ok1 && ok2
+	}
+	return "", false
+}
+
+// ---------------------------------------------------------------------
+// reading Go values out of the model
+
+type modelReader struct {
+	s     *session
+	c     *Ctx
+	depth int
+	notes []string
+	fail  string
+}
+
+func (m *modelReader) str(term string) (string, bool) {
+	ln, err := m.s.value(sx("gstr_len", term))
+	if err != nil {
+		return "", false
+	}
+	n, ok := sexpInt(ln)
+	if !ok || n < 0 || n > 64 {
+		return "", false
+	}
+	var bs []byte
+	for i := int64(0); i < n; i++ {
+		v, err := m.s.value(sx("gstr_at", term, fmt.Sprint(i)))
+		if err != nil {
+			return "", false
+		}
+		b, ok := sexpInt(v)
+		if !ok {
+			return "", false
+		}
+		bs = append(bs, byte(b))
+	}
+	return string(bs), true
+}
+
+func (m *modelReader) sliceParts(term string) (ref, off, ln int64, ok bool) {
+	v, err := m.s.value(term)
+	if err != nil || v == nil || len(v.list) != 5 || v.list[0].atom != "mk-slice" {
+		return 0, 0, 0, false
+	}
+	ref, ok1 := sexpInt(v.list[1])
+	off, ok2 := sexpInt(v.list[2])
+	ln, ok3 := sexpInt(v.list[3])
+	return ref, off, ln, ok1 && ok2 && ok3
+}
+
+// objectGo renders the Object denoted by an Iface term as Go source.
+func (m *modelReader) objectGo(term string, heapGen string) (string, bool) {
+	v, err := m.s.value(term)
+	if err != nil || v == nil {
+		return "", false
+	}
+	if v.list == nil {
+		switch v.atom {
+		case "I_nil":
+			return "nil", true
+		}
+		return "", false
+	}
+	ctor := v.list[0].atom
+	switch ctor {
+	case "I_postscript_Integer":
+		n, ok := sexpInt(v.list[1])
+		if !ok {
+			return "", false
+		}
+		if n == -9223372036854775808 {
+			return "Integer(math.MinInt64)", true
+		}
+		return fmt.Sprintf("Integer(%d)", n), true
+	case "I_postscript_Real":
+		r, ok := sexpRealGo(v.list[1])
+		return "Real(" + r + ")", ok
+	case "I_postscript_Boolean":
+		return "Boolean(" + v.list[1].atom + ")", true
+	case "I_postscript_Name", "I_postscript_Operator":
+		s, ok := m.str(sx("pv_"+ctor[2:], term))
+		if !ok {
+			return "", false
+		}
+		if ctor == "I_postscript_Operator" && (s == "{" || s == "}") {
+			return "", false // never stored in memory (value invariant)
+		}
+		return fmt.Sprintf("%s(%q)", ctor[len("I_postscript_"):], s), true
+	case "I_postscript_mark":
+		return "theMark", true
+	case "I_postscript_Dict":
+		return "Dict{}", true
+	case "I_postscript_builtin":
+		return "builtin(bPop)", true
+	case "I_postscript_String":
+		ref, off, ln, ok := m.sliceParts(sx("pv_postscript_String", term))
+		if !ok || ln > 32 {
+			return "", false
+		}
+		var bs []string
+		for i := int64(0); i < ln; i++ {
+			bv, err := m.s.value(fmt.Sprintf("(select (select H_uint8%s %d) %d)", heapGen, ref, off+i))
+			if err != nil {
+				return "", false
+			}
+			b, ok := sexpInt(bv)
+			if !ok {
+				return "", false
+			}
+			bs = append(bs, fmt.Sprint(b))
+		}
+		return "String{" + strings.Join(bs, ", ") + "}", true
+	case "I_postscript_Array", "I_postscript_Procedure":
+		if m.depth >= 2 {
+			return ctor[len("I_postscript_"):] + "{}", true
+		}
+		ref, off, ln, ok := m.sliceParts(sx("pv_"+ctor[2:], term))
+		if !ok || ln > 8 {
+			return "", false
+		}
+		m.depth++
+		defer func() { m.depth-- }()
+		var es []string
+		for i := int64(0); i < ln; i++ {
+			e, ok := m.objectGo(fmt.Sprintf("(select (select H_postscript_Object%s %d) %d)", heapGen, ref, off+i), heapGen)
+			if !ok {
+				return "", false
+			}
+			es = append(es, e)
+		}
+		return ctor[len("I_postscript_"):] + "{" + strings.Join(es, ", ") + "}", true
+	}
+	return "", false
+}
+
+// ---------------------------------------------------------------------
+// replay driver
+
+func findDecl(c *Ctx, prefix string) string {
+	for _, d := range c.decls {
+		if strings.HasPrefix(d, "(declare-const "+prefix) {
+			f := strings.Fields(d)
+			return f[1]
+		}
+	}
+	return ""
+}
+
+// relaxedQuery drops the quantified assumptions of a query.  A model of the
+// relaxed query is only a candidate counterexample: it counts when (and only
+// when) it replays on the real code.
+func relaxedQuery(q string) string {
+	var b strings.Builder
+	lines := strings.Split(q, "\n")
+	for i, l := range lines {
+		last := i >= len(lines)-3
+		if strings.HasPrefix(l, "(assert ") && (strings.Contains(l, "(forall ((q_") || strings.Contains(l, "(exists ((q_")) && !last {
+			continue
+		}
+		b.WriteString(l)
+		b.WriteString("\n")
+	}
+	return b.String()
+}
+
+// qfGoal weakens an obligation "(=> A (and c1 ... cn))" to its quantifier-free
+// conjuncts (used only to search candidate counterexamples).
+func qfGoal(goal string) string {
+	e, _ := parseSexp(goal)
+	if e == nil {
+		return goal
+	}
+	var ante []string
+	cur := e
+	for cur.list != nil && len(cur.list) == 3 && cur.list[0].atom == "=>" {
+		ante = append(ante, cur.list[1].String())
+		cur = cur.list[2]
+	}
+	var conj []string
+	var flat func(n *sexp)
+	flat = func(n *sexp) {
+		if n.list != nil && len(n.list) > 0 && n.list[0].atom == "and" {
+			for _, c := range n.list[1:] {
+				flat(c)
+			}
+			return
+		}
+		if t := n.String(); !strings.Contains(t, "(forall (") && !strings.Contains(t, "(exists (") {
+			conj = append(conj, t)
+		}
+	}
+	flat(cur)
+	if len(conj) == 0 {
+		return goal
+	}
+	return implies(and(ante...), and(conj...))
+}
 
 func tryReplay(o *Options, p *Program, ob *Obligation) *ReplayResult {
-	return nil
+	if ob.ctx == nil || ob.Result.Status == "unsat" || ob.Result.Status == "error" || ob.Result.Status == "not-attempted" {
+		return nil
+	}
+	if ob.Kind == "translate" || ob.Kind == "requires-sat" {
+		return nil
+	}
+	fn := p.byName[ob.Func]
+	if fn == nil || fn.Pkg == nil || fn.Parent() != nil {
+		return nil
+	}
+	defer func() { recover() }()
+	sig := fn.Signature
+	isBuiltinShape := fn.Pkg.Pkg.Name() == "postscript" && sig.Params().Len() == 1 && sig.Results().Len() == 1 &&
+		typeStr(sig.Params().At(0).Type()) == "*postscript.Interpreter" && sig.Recv() == nil
+	var res *ReplayResult
+	if isBuiltinShape {
+		res = replayBuiltin(o, p, ob, fn)
+	} else if pureShape(fn) {
+		res = replayPure(o, p, ob, fn)
+	}
+	return res
+}
+
+func pureShape(fn *ssa.Function) bool {
+	if fn.Signature.Recv() != nil {
+		return false
+	}
+	for i := 0; i < fn.Signature.Params().Len(); i++ {
+		t := fn.Signature.Params().At(i).Type()
+		_, _, isI := intInfo(t)
+		if !(isI || isBool(t) || isString(t) || isByteSlice(t) || isFloat(t)) {
+			return false
+		}
+	}
+	return fn.Signature.Params().Len() > 0
+}
+
+var safetyKinds = map[string]bool{"index": true, "slice": true, "nil": true, "assert": true, "div": true, "shift": true,
+	"make": true, "nilmap": true, "panic": true, "ifacecmp": true}
+
+// goTestRun runs a generated test inside the real package through an overlay.
+func goTestRun(o *Options, pkgDir string, testSrc string, name string) (string, bool) {
+	dir := filepath.Join(o.out, "work", "replay")
+	os.MkdirAll(dir, 0o755)
+	tf := filepath.Join(dir, name+"_test.go")
+	os.WriteFile(tf, []byte(testSrc), 0o644)
+	ov := map[string]map[string]string{"Replace": {filepath.Join(pkgDir, "zz_govc_replay_test.go"): tf}}
+	data, _ := json.Marshal(ov)
+	of := filepath.Join(dir, name+"_overlay.json")
+	os.WriteFile(of, data, 0o644)
+	ctx, cancel := context.WithTimeout(context.Background(), 120*time.Second)
+	defer cancel()
+	cmd := exec.CommandContext(ctx, "go", "test", "-tags", "verif", "-overlay", of, "-vet=off", "-count=1", "-timeout", "60s", "-run", "^TestGovcReplay$", ".")
+	cmd.Dir = pkgDir
+	cmd.Env = append(os.Environ(), "GOFLAGS=-mod=mod", "GOPROXY=off", "GOSUMDB=off", "GOTOOLCHAIN=local")
+	var out bytes.Buffer
+	cmd.Stdout = &out
+	cmd.Stderr = &out
+	cmd.Run()
+	s := out.String()
+	return s, strings.Contains(s, "REPLAY-CONFIRMED")
+}
+
+func replayBuiltin(o *Options, p *Program, ob *Obligation, fn *ssa.Function) *ReplayResult {
+	c := ob.ctx
+	intp := findDecl(c, "p_intp!")
+	if intp == "" {
+		return nil
+	}
+	fld := func(name string) string { return sx("select", "F_postscript_Interpreter_"+name+"@0", intp) }
+	var hints []string
+	if _, ok := c.regions["F_postscript_Interpreter_Stack"]; ok {
+		hints = append(hints, sx("<=", sLen(fld("Stack")), "6"))
+	}
+	if _, ok := c.regions["F_postscript_Interpreter_DictStack"]; ok {
+		hints = append(hints, sx("<=", sLen(fld("DictStack")), "20"))
+	}
+	s, err := startSession(ob.query(), ob.Result.Backend, hints, ob.candidateQuery())
+	if err != nil {
+		return &ReplayResult{Verdict: "no model session: " + err.Error()}
+	}
+	defer s.close()
+	m := &modelReader{s: s, c: c}
+	var setup []string
+	// operand stack
+	if _, ok := c.regions["F_postscript_Interpreter_Stack"]; ok {
+		ref, off, ln, ok := m.sliceParts(fld("Stack"))
+		if !ok || ln > 12 {
+			return &ReplayResult{Verdict: "model not replayable (operand stack too large or unreadable)"}
+		}
+		var es []string
+		for i := int64(0); i < ln; i++ {
+			e, ok := m.objectGo(fmt.Sprintf("(select (select H_postscript_Object@0 %d) %d)", ref, off+i), "@0")
+			if !ok {
+				e = "Integer(0) /* model value not representable */"
+			}
+			es = append(es, e)
+		}
+		setup = append(setup, "intp.Stack = []Object{"+strings.Join(es, ", ")+"}")
+	}
+	if _, ok := c.regions["F_postscript_Interpreter_DictStack"]; ok {
+		_, _, ln, ok := m.sliceParts(fld("DictStack"))
+		if ok && ln >= 2 && ln <= 64 {
+			setup = append(setup, fmt.Sprintf("for len(intp.DictStack) < %d { intp.DictStack = append(intp.DictStack, Dict{}) }", ln))
+		}
+	}
+	for _, f := range []string{"MaxOps", "NumOps", "execStackDepth"} {
+		if _, ok := c.regions["F_postscript_Interpreter_"+f]; ok {
+			if v, err := s.value(fld(f)); err == nil {
+				if n, ok := sexpInt(v); ok {
+					setup = append(setup, fmt.Sprintf("intp.%s = %d", f, n))
+				}
+			}
+		}
+	}
+	if _, ok := c.regions["F_postscript_Interpreter_errors"]; ok {
+		if _, _, ln, ok := m.sliceParts(fld("errors")); ok && ln >= 0 && ln <= 5 {
+			setup = append(setup, fmt.Sprintf("for len(intp.errors) < %d { intp.errors = append(intp.errors, &postScriptError{eTypecheck, \"replay\"}) }", ln))
+		}
+	}
+	check, note := replayCheck(p, ob, fn)
+	var b strings.Builder
+	b.WriteString("package postscript\n\nimport (\n\t\"math\"\n\t\"strings\"\n\t\"testing\"\n)\n\nvar _ = math.MinInt64\n\n")
+	b.WriteString("// Replay of obligation " + ob.Name + "\n")
+	b.WriteString("func TestGovcReplay(t *testing.T) {\n\tintp := NewInterpreter()\n\tintp.scanners = append(intp.scanners, newScanner(strings.NewReader(\"\")))\n")
+	for _, l := range setup {
+		b.WriteString("\t" + l + "\n")
+	}
+	b.WriteString("\tt.Logf(\"entry stack: %v\", intp.Stack)\n")
+	b.WriteString(check.pre)
+	b.WriteString("\tvar result error\n\tpanicked := func() (p interface{}) {\n\t\tdefer func() { p = recover() }()\n\t\tresult = " + fn.Name() + "(intp)\n\t\treturn nil\n\t}()\n")
+	b.WriteString("\tif panicked != nil {\n\t\tt.Fatalf(\"REPLAY-CONFIRMED: panic: %v\", panicked)\n\t}\n")
+	b.WriteString("\tt.Logf(\"result: %v, exit stack: %v\", result, intp.Stack)\n")
+	b.WriteString(check.post)
+	b.WriteString("}\n")
+	out, confirmed := goTestRun(o, filepath.Join(p.repo), b.String(), shortName(ob.Name))
+	rr := &ReplayResult{Confirmed: confirmed, Detail: "setup:\n  " + strings.Join(setup, "\n  ") + "\n" + note + "\n--- go test output ---\n" + truncate(out, 4000)}
+	if confirmed {
+		rr.Verdict = "CONFIRMED on the real code"
+	} else {
+		rr.Verdict = "not reproduced on the real code with this model (the obligation failed nevertheless)"
+	}
+	return rr
+}
+
+type replayCode struct{ pre, post string }
+
+// replayCheck turns the violated clause into Go code (only for ensures
+// obligations whose clause is executable; safety obligations need none).
+func replayCheck(p *Program, ob *Obligation, fn *ssa.Function) (replayCode, string) {
+	if safetyKinds[ob.Kind] {
+		return replayCode{}, "expectation: the call must not panic"
+	}
+	if ob.Kind != "ensures" {
+		return replayCode{}, "no executable check for obligation kind " + ob.Kind
+	}
+	fc := p.contracts[ob.Func]
+	if fc == nil {
+		return replayCode{}, ""
+	}
+	// find the clause by its position in the tag ("...:ensuresK")
+	idx := -1
+	if i := strings.LastIndex(ob.Tag, "ensures"); i >= 0 {
+		rest := ob.Tag[i+len("ensures"):]
+		if j := strings.IndexAny(rest, ".#"); j >= 0 {
+			rest = rest[:j]
+		}
+		if n, err := strconv.Atoi(rest); err == nil {
+			idx = n - 1
+		}
+	}
+	if idx < 0 || idx >= len(fc.Ensures) {
+		return replayCode{}, ""
+	}
+	cl := fc.Ensures[idx]
+	e, err := cl.parse()
+	if err != nil {
+		return replayCode{}, ""
+	}
+	g := &goGen{p: p, pkg: fn.Pkg.Pkg}
+	body := g.expr(e)
+	if g.bad != "" {
+		return replayCode{}, "clause not executable in the replay (" + g.bad + ")"
+	}
+	var pre strings.Builder
+	pre.WriteString("\tpre := func() *Interpreter { c := *intp; c.Stack = append([]Object(nil), intp.Stack...); c.DictStack = append([]Dict(nil), intp.DictStack...); c.errors = append([]*postScriptError(nil), intp.errors...); c.procStart = append([]int(nil), intp.procStart...); c.scanners = append([]*scanner(nil), intp.scanners...); return &c }()\n\t_ = pre\n")
+	post := "\tif !(" + body + ") {\n\t\tt.Fatalf(\"REPLAY-CONFIRMED: postcondition violated: %s\", " + strconv.Quote(cl.Text) + ")\n\t}\n"
+	return replayCode{pre: pre.String(), post: post}, "expectation: " + cl.Text
+}
+
+// goGen renders a contract expression as executable Go (old(e) is computed
+// before the call; quantifiers over int ranges become bounded loops).
+type goGen struct {
+	p    *Program
+	pkg  *types.Package
+	olds []string
+	bad  string
+	inOld bool
+}
+
+func (g *goGen) expr(e ast.Expr) string {
+	switch e := e.(type) {
+	case *ast.CallExpr:
+		if id, ok := e.Fun.(*ast.Ident); ok {
+			switch id.Name {
+			case "__implies":
+				return "(!(" + g.expr(e.Args[0]) + ") || (" + g.expr(e.Args[1]) + "))"
+			case "old":
+				// old(e): e evaluated on the snapshot taken before the call
+				if g.inOld {
+					return g.expr(e.Args[0])
+				}
+				g.inOld = true
+				src := g.expr(e.Args[0])
+				g.inOld = false
+				return "(" + src + ")"
+			case "__forall", "__exists":
+				fl := e.Args[0].(*ast.FuncLit)
+				var names []string
+				for _, f := range fl.Type.Params.List {
+					for _, n := range f.Names {
+						names = append(names, n.Name)
+					}
+				}
+				body := g.expr(fl.Body.List[0].(*ast.ReturnStmt).Results[0])
+				all := id.Name == "__forall"
+				code := "func() bool { "
+				for _, n := range names {
+					code += fmt.Sprintf("for %s := -2; %s < 2000; %s++ { ", n, n, n)
+				}
+				if all {
+					code += "if !(func() (ok bool) { defer func() { if recover() != nil { ok = true } }(); return " + body + " }()) { return false } "
+				} else {
+					code += "if func() (ok bool) { defer func() { if recover() != nil { ok = false } }(); return " + body + " }() { return true } "
+				}
+				for range names {
+					code += "}; "
+				}
+				if all {
+					code += "return true }()"
+				} else {
+					code += "return false }()"
+				}
+				return code
+			case "isType":
+				return "func() bool { _, ok := (" + g.expr(e.Args[0]) + ").(" + exprString(e.Args[1]) + "); return ok }()"
+			case "has":
+				return "func() bool { _, ok := (" + g.expr(e.Args[0]) + ")[" + g.expr(e.Args[1]) + "]; return ok }()"
+			case "ref", "off", "fresh":
+				g.bad = id.Name + "() is not executable"
+				return "true"
+			}
+			if d := g.p.defines[g.pkg.Name()+"."+id.Name]; d != nil {
+				body, err := d.Body.parse()
+				if err != nil {
+					g.bad = "define does not parse"
+					return "true"
+				}
+				// substitute parameters textually through a closure
+				var params, args []string
+				for i, pn := range d.Params {
+					params = append(params, pn)
+					args = append(args, g.expr(e.Args[i]))
+				}
+				_ = params
+				sub := &goGen{p: g.p, pkg: g.pkg, olds: g.olds, inOld: g.inOld}
+				src := sub.expr(substIdents(body, d.Params, e.Args))
+				g.olds = sub.olds
+				if sub.bad != "" {
+					g.bad = sub.bad
+				}
+				return "(" + src + ")"
+			}
+		}
+		var args []string
+		for _, a := range e.Args {
+			args = append(args, g.expr(a))
+		}
+		return g.expr(e.Fun) + "(" + strings.Join(args, ", ") + ")"
+	case *ast.BinaryExpr:
+		return "(" + g.expr(e.X) + " " + e.Op.String() + " " + g.expr(e.Y) + ")"
+	case *ast.UnaryExpr:
+		return "(" + e.Op.String() + g.expr(e.X) + ")"
+	case *ast.ParenExpr:
+		return "(" + g.expr(e.X) + ")"
+	case *ast.IndexExpr:
+		return g.expr(e.X) + "[" + g.expr(e.Index) + "]"
+	case *ast.SelectorExpr:
+		return g.expr(e.X) + "." + e.Sel.Name
+	case *ast.TypeAssertExpr:
+		return g.expr(e.X) + ".(" + exprString(e.Type) + ")"
+	case *ast.Ident:
+		if g.inOld && e.Name == "intp" {
+			return "pre"
+		}
+		return e.Name
+	case *ast.BasicLit:
+		return exprString(e)
+	case *ast.StarExpr:
+		return "*" + g.expr(e.X)
+	}
+	var buf bytes.Buffer
+	printer.Fprint(&buf, token.NewFileSet(), e)
+	return buf.String()
+}
+
+// substIdents replaces parameter identifiers of a define by argument expressions.
+func substIdents(e ast.Expr, params []string, args []ast.Expr) ast.Expr {
+	m := map[string]ast.Expr{}
+	for i, p := range params {
+		m[p] = args[i]
+	}
+	var rec func(e ast.Expr) ast.Expr
+	rec = func(e ast.Expr) ast.Expr {
+		switch e := e.(type) {
+		case *ast.Ident:
+			if a, ok := m[e.Name]; ok {
+				return &ast.ParenExpr{X: a}
+			}
+			return e
+		case *ast.BinaryExpr:
+			return &ast.BinaryExpr{X: rec(e.X), Op: e.Op, Y: rec(e.Y)}
+		case *ast.UnaryExpr:
+			return &ast.UnaryExpr{Op: e.Op, X: rec(e.X)}
+		case *ast.ParenExpr:
+			return &ast.ParenExpr{X: rec(e.X)}
+		case *ast.CallExpr:
+			n := &ast.CallExpr{Fun: e.Fun}
+			if _, isLit := e.Fun.(*ast.FuncLit); isLit {
+				n.Fun = rec(e.Fun)
+			}
+			for _, a := range e.Args {
+				n.Args = append(n.Args, rec(a))
+			}
+			return n
+		case *ast.FuncLit:
+			nb := &ast.BlockStmt{}
+			for _, st := range e.Body.List {
+				if r, ok := st.(*ast.ReturnStmt); ok {
+					nr := &ast.ReturnStmt{}
+					for _, x := range r.Results {
+						nr.Results = append(nr.Results, rec(x))
+					}
+					nb.List = append(nb.List, nr)
+				} else {
+					nb.List = append(nb.List, st)
+				}
+			}
+			return &ast.FuncLit{Type: e.Type, Body: nb}
+		case *ast.IndexExpr:
+			return &ast.IndexExpr{X: rec(e.X), Index: rec(e.Index)}
+		case *ast.SelectorExpr:
+			return &ast.SelectorExpr{X: rec(e.X), Sel: e.Sel}
+		case *ast.TypeAssertExpr:
+			return &ast.TypeAssertExpr{X: rec(e.X), Type: e.Type}
+		}
+		return e
+	}
+	return rec(e)
+}
+
+// replayPure: functions of scalars / strings / byte slices.
+func replayPure(o *Options, p *Program, ob *Obligation, fn *ssa.Function) *ReplayResult {
+	c := ob.ctx
+	s, err := startSession(ob.query(), ob.Result.Backend, nil, ob.candidateQuery())
+	if err != nil {
+		return &ReplayResult{Verdict: "no model session: " + err.Error()}
+	}
+	defer s.close()
+	m := &modelReader{s: s, c: c}
+	var args []string
+	var desc []string
+	for _, pr := range fn.Params {
+		name := findDecl(c, "p_"+pr.Name()+"!")
+		if name == "" {
+			return nil
+		}
+		t := pr.Type()
+		var src string
+		switch {
+		case isBool(t):
+			v, err := s.value(name)
+			if err != nil {
+				return nil
+			}
+			src = v.atom
+		case isFloat(t):
+			v, err := s.value(name)
+			if err != nil {
+				return nil
+			}
+			r, ok := sexpRealGo(v)
+			if !ok {
+				return &ReplayResult{Verdict: "model not replayable (float value)"}
+			}
+			src = r
+		case isString(t):
+			str, ok := m.str(name)
+			if !ok {
+				return &ReplayResult{Verdict: "model not replayable (string too long)"}
+			}
+			src = strconv.Quote(str)
+		case isByteSlice(t):
+			ref, off, ln, ok := m.sliceParts(name)
+			if !ok || ln > 4096 {
+				return &ReplayResult{Verdict: "model not replayable (slice too long)"}
+			}
+			var bs []string
+			for i := int64(0); i < ln; i++ {
+				bv, err := s.value(fmt.Sprintf("(select (select H_uint8@0 %d) %d)", ref, off+i))
+				if err != nil {
+					return nil
+				}
+				b, _ := sexpInt(bv)
+				bs = append(bs, fmt.Sprint(b))
+			}
+			src = "[]byte{" + strings.Join(bs, ", ") + "}"
+			if ref == 0 {
+				src = "[]byte(nil)"
+			}
+		default:
+			v, err := s.value(c.toIdx(t, name))
+			if err != nil {
+				return nil
+			}
+			n, ok := sexpInt(v)
+			if !ok {
+				return &ReplayResult{Verdict: "model not replayable (integer value)"}
+			}
+			src = fmt.Sprintf("%d", n)
+			if n == -9223372036854775808 {
+				src = "math.MinInt64"
+			}
+		}
+		tn := types.TypeString(t, func(pk *types.Package) string {
+			if pk == fn.Pkg.Pkg {
+				return ""
+			}
+			return pk.Name()
+		})
+		args = append(args, tn+"("+src+")")
+		desc = append(desc, pr.Name()+" = "+src)
+	}
+	if !safetyKinds[ob.Kind] {
+		return &ReplayResult{Verdict: "counterexample: " + strings.Join(desc, ", ") + " (no executable check for this obligation kind)"}
+	}
+	var b strings.Builder
+	b.WriteString("package " + fn.Pkg.Pkg.Name() + "\n\nimport (\n\t\"math\"\n\t\"testing\"\n)\n\nvar _ = math.MinInt64\n\n")
+	b.WriteString("// Replay of obligation " + ob.Name + "\n")
+	b.WriteString("func TestGovcReplay(t *testing.T) {\n\tpanicked := func() (p interface{}) {\n\t\tdefer func() { p = recover() }()\n\t\t" + fn.Name() + "(" + strings.Join(args, ", ") + ")\n\t\treturn nil\n\t}()\n")
+	b.WriteString("\tif panicked != nil {\n\t\tt.Fatalf(\"REPLAY-CONFIRMED: panic: %v\", panicked)\n\t}\n}\n")
+	rel := strings.TrimPrefix(fn.Pkg.Pkg.Path(), p.modPath)
+	out, confirmed := goTestRun(o, filepath.Join(p.repo, rel), b.String(), shortName(ob.Name))
+	rr := &ReplayResult{Confirmed: confirmed, Detail: "arguments: " + strings.Join(desc, ", ") + "\n--- go test output ---\n" + truncate(out, 4000)}
+	if confirmed {
+		rr.Verdict = "CONFIRMED on the real code"
+	} else {
+		rr.Verdict = "not reproduced on the real code with this model (the obligation failed nevertheless)"
+	}
+	return rr
+}
+
+// candidateQuery: the obligation with every quantified assumption dropped and
+// the goal weakened to its quantifier-free conjuncts.
+func (o *Obligation) candidateQuery() string {
+	c := o.ctx
+	var b strings.Builder
+	b.WriteString(c.preamble())
+	for _, a := range c.assert[:o.nAssert] {
+		if strings.Contains(a, "(forall (") || strings.Contains(a, "(exists (") {
+			continue
+		}
+		b.WriteString("(assert " + a + ")\n")
+	}
+	b.WriteString("(assert " + and(o.guard, not(qfGoal(o.goal))) + ")\n(check-sat)\n")
+	// the preamble itself contains one quantified axiom about empty strings; keep it
+	return b.String()
 }
